@@ -43,7 +43,7 @@ func VerifC17Name() {
 	root := vrtRoot()
 	alpha := "aZ1_-."
 	L := vrtParam("L", 2)
-	dirs := []string{"proj", "My.Dir", "_x9", "UP", "--"}
+	dirs := []string{"proj", "My.Dir", "_x9", "UP", "--", ".-cache", "._My.Proj", "@_x"}
 	dir := dirs[vrtChoice("dir", len(dirs))]
 	wd := root + "/w/" + dir
 	vrtDir(wd)
@@ -55,7 +55,7 @@ func VerifC17Name() {
 	var envList []string
 	switch nameCase {
 	case 1:
-		fileName = vrtString("name1", L, alpha)
+		fileName = []string{"", ".-", "._"}[vrtChoice("namePrefix", 3)] + vrtString("name1", L, alpha)
 		base["name"] = fileName
 	case 2:
 		base["name"] = "first"
@@ -157,8 +157,14 @@ func VerifC17Env() {
 	in2 := vrtChoice("inEnv2", 2) == 1
 	v := vrtString("v", vrtParam("VL", 1), "ab")
 	var explicitEnv []string
+	explicitEmpty := false
 	if inExplicit {
-		explicitEnv = append(explicitEnv, "X=ex"+v)
+		if vrtChoice("explicitEmpty", 2) == 1 {
+			explicitEmpty = true // an explicit empty value still wins over the OS value
+			explicitEnv = append(explicitEnv, "X=")
+		} else {
+			explicitEnv = append(explicitEnv, "X=ex"+v)
+		}
 	}
 	if inOS {
 		vrtEnv("X", "os"+v)
@@ -191,6 +197,8 @@ func VerifC17Env() {
 	}
 	want, set := "", true
 	switch {
+	case inExplicit && explicitEmpty:
+		want = ""
 	case inExplicit:
 		want = "ex" + v
 	case inOS:
@@ -213,7 +221,9 @@ func VerifC17Env() {
 		return
 	}
 	vrtAssert("dotenv-reference-sees-winning-value", p.Environment["Y"] == want)
-	if set {
+	if set && explicitEmpty {
+		vrtAssert("dotenv-default-used-when-empty", p.Environment["Z"] == "unset")
+	} else if set {
 		vrtAssert("dotenv-default-not-used-when-set", p.Environment["Z"] == want)
 	} else {
 		vrtAssert("dotenv-default-used-when-unset", p.Environment["Z"] == "unset")
